@@ -4,6 +4,7 @@
 package c08
 
 import (
+	"bytes"
 	"context"
 	"encoding/binary"
 	"encoding/hex"
@@ -262,9 +263,50 @@ func decodeOnce(c *decodeCase, input []byte) (res result) {
 }
 
 // checkDecode = decodeOnce + the allocation oracle with confirmation by re-measurement.
+// codecBystander: "a failure affects only that connection" at the decoder level. After the case's input went through
+// one decoder, a well-formed request frame of the same protocol - another connection's - is decoded with a fresh
+// context: it must come out as one frame, consume exactly its bytes and re-encode to the same bytes.
+func codecBystander(p string) *failure {
+	frame := mesh.XBuildRequest(p, 4242, "bystander", []byte("-of-another-connection"))
+	proto := codec.Proto(p)
+	ctx := codec.NewCtx()
+	buf := buffer.NewIoBufferBytes(append([]byte(nil), frame...))
+	var fail *failure
+	pn, st := codec.Call("decode-bystander", p, func() {
+		cmd, err := proto.Decode(ctx, buf)
+		xf, ok := cmd.(api.XFrame)
+		switch {
+		case err != nil || !ok:
+			fail = &failure{p + "/decode-failure-leaks-into-another-decode", fmt.Sprintf("a well-formed %s frame decoded with a fresh context after the case's input: %v / %T", p, err, cmd)}
+		case buf.Len() != 0:
+			fail = &failure{p + "/decode-failure-leaks-into-another-decode", fmt.Sprintf("a well-formed %s frame of %d bytes decoded after the case's input left %d bytes", p, len(frame), buf.Len())}
+		default:
+			out, err := proto.Encode(ctx, xf)
+			if err != nil || !bytes.Equal(out.Bytes(), frame) {
+				fail = &failure{p + "/decode-failure-leaks-into-another-decode", fmt.Sprintf("a well-formed %s frame decoded after the case's input re-encodes differently (%v): %s instead of %s", p, err, ev.Short(outBytes(out)), ev.Short(frame))}
+			}
+		}
+	})
+	if pn != nil {
+		return &failure{p + "/decode-failure-leaks-into-another-decode", fmt.Sprintf("decoding a well-formed %s frame after the case's input panicked: %v\n%s", p, pn, st)}
+	}
+	return fail
+}
+
+func outBytes(b buffer.IoBuffer) []byte {
+	if b == nil {
+		return nil
+	}
+	return b.Bytes()
+}
+
 func checkDecode(c *decodeCase, input []byte) result {
 	res := decodeOnce(c, input)
 	if res.fail != nil {
+		return res
+	}
+	if f := codecBystander(c.Proto); f != nil {
+		res.fail = f
 		return res
 	}
 	if bound := allocBound(len(input)); res.alloc > bound {
